@@ -2,6 +2,8 @@ import importlib
 import os
 import sys
 
+sys.set_int_max_str_digits(0)
+
 VERIF = os.path.dirname(os.path.dirname(os.path.abspath(__file__)))
 sys.path.insert(0, VERIF)
 
